@@ -138,6 +138,8 @@ func (env *Env) lookup(name string) (Val, bool) {
 					ad := fx.addrOfTerm(av.T, derefType(a.Type()))
 					return Val{T: fx.load(fr, env.st, ad, 0), Typ: derefType(a.Type())}, true
 				}
+				// the variable has not been allocated on this path: it has its zero value
+				return Val{T: fx.e.W.Zero(derefType(a.Type())), Typ: derefType(a.Type())}, true
 			} else if sv, ok2 := fr.vals[v]; ok2 {
 				return sv, true
 			}
@@ -161,6 +163,20 @@ func (env *Env) lookup(name string) (Val, bool) {
 			if g, ok := pkg.Members[name].(*ssa.Global); ok {
 				return Val{T: fx.loadGlobal(fr, env.st, g), Typ: derefType(g.Type())}, true
 			}
+		}
+	}
+	// a package-level variable of any repository package, when the name is unambiguous
+	{
+		var found *ssa.Global
+		n := 0
+		for _, p := range fx.e.Pkgs {
+			if g, ok := p.Members[name].(*ssa.Global); ok {
+				found = g
+				n++
+			}
+		}
+		if n == 1 {
+			return Val{T: fx.loadGlobal(fr, env.st, found), Typ: derefType(found.Type())}, true
 		}
 	}
 	for _, p := range fx.e.Pkgs {
@@ -213,6 +229,14 @@ func (fr *frame) debugNames() map[string]ssa.Value {
 	for n := range amb {
 		if _, isAlloc := fr.dbg[n].(*ssa.Alloc); !isAlloc {
 			delete(fr.dbg, n)
+		}
+	}
+	// address-taken variables: the name always denotes the variable's cell
+	for _, b := range fr.fn.Blocks {
+		for _, ins := range b.Instrs {
+			if t, ok := ins.(*ssa.Alloc); ok && t.Comment != "" && !strings.Contains(t.Comment, " ") && t.Comment != "complit" && t.Comment != "varargs" {
+				fr.dbg[t.Comment] = t
+			}
 		}
 	}
 	return fr.dbg
